@@ -2,7 +2,7 @@
 (* The 20 validated string types of iref and the RFC production each must    *)
 (* accept exactly (C01).  "byte" types range over octets, "char" types over  *)
 (* Unicode scalar values.                                                    *)
-EXTENDS Rfc3987Abnf
+EXTENDS Rfc3987Abnf, RefDfa
 
 UriTypes == {"Uri", "UriRef", "Scheme", "UAuthority", "UUserInfo", "UHost", "Port",
              "UPath", "USegment", "UQuery", "UFragment"}
@@ -42,5 +42,17 @@ IriOf(ty) ==
       [] ty = "USegment" -> "ISegment" [] ty = "UQuery" -> "IQuery" [] ty = "UFragment" -> "IFragment"
       [] OTHER -> ty
 
-InLang(ty, w) == Member(LangOf(ty), w)
+(* Definition: membership in the RFC production. *)
+InLangDef(ty, w) == Member(LangOf(ty), w)
+
+(* Accelerator: run the table RefDfa (the derivative automaton of LangOf(ty), derived by *)
+(* TLC itself and proved equal to the regex by MC_RefDfaEq).  0 = dead state.            *)
+RefStep(ty, s, c) ==
+    IF s = 0 THEN 0
+    ELSE LET es  == RefTrans(ty)[s]
+             hit == {i \in 1..Len(es) : es[i][1] <= c /\ c <= es[i][2]}
+         IN  IF hit = {} THEN 0 ELSE es[CHOOSE i \in hit : TRUE][3]
+RECURSIVE RefRun(_, _, _)
+RefRun(ty, s, w) == IF w = <<>> \/ s = 0 THEN s ELSE RefRun(ty, RefStep(ty, s, Head(w)), Tail(w))
+InLang(ty, w) == RefRun(ty, 1, w) \in RefFinal(ty)
 =============================================================================
